@@ -146,26 +146,32 @@ Section Grow.
     (forall q, imm_of w1 q = imm_of w q) /\ (forall b, imm w1 b = imm w b) /\ (forall q, values w1 q = values w q) /\
     (forall p0 x, In x (ORD w p0) -> In x (ORD w1 p0)) /\
     (forall t pos ser label act, slot_at w1 t pos ser (SObs label act) -> slot_at w t pos ser (SObs label act)) /\
-    (forall q k t, owns w q k t -> owns w1 q k t).
+    (forall q k t, owns w q k t -> owns w1 q k t) /\
+    (* a property with a valueAboutToChange table keeps its updater (a freshly created property has no table yet) *)
+    (forall q v t, pview w q = Some v -> psig v KAbout = Some t -> exists v1, pview w1 q = Some v1 /\ psig v1 KAbout = Some t /\ ps_updater v1 = ps_updater v).
   Lemma GR_refl w : GR w w.
-  Proof. repeat split; auto. Qed.
+  Proof. repeat split; auto. intros q v t H Ht; exists v; auto. Qed.
   Lemma GR_trans a b c : GR a b -> GR b c -> GR a c.
   Proof.
-    intros (A1 & A2 & A3 & A4 & A5 & A6) (B1 & B2 & B3 & B4 & B5 & B6). repeat split; intros; try congruence; eauto.
+    intros (A1 & A2 & A3 & A4 & A5 & A6 & A7) (B1 & B2 & B3 & B4 & B5 & B6 & B7). repeat split; intros; try congruence; eauto.
+    destruct (A7 _ _ _ H H0) as (v1 & P1 & T1 & U1). destruct (B7 _ _ _ P1 T1) as (v2 & P2 & T2 & U2). exists v2. split; [exact P2|split; [exact T2|congruence]].
   Qed.
   Lemma GR_sub w p k b l h w1 : sub_ext w p k (SNode b l) h w1 -> GR w w1.
   Proof.
     intros E. split; [apply (sub_imm_of _ _ _ _ _ _ E)|]. split; [apply (sub_imm _ _ _ _ _ _ E)|]. split; [apply (se_vals _ _ _ _ _ _ E)|].
-    split; [apply (sub_ORD _ _ _ _ _ _ E)|]. split; [|exact (se_owns_old _ _ _ _ _ _ E)].
-    intros t pos ser label act Hs. destruct (se_new _ _ _ _ _ _ E _ _ _ _ Hs) as [Ho|(_ & _ & _ & Ex)]; [exact Ho|discriminate Ex].
+    split; [apply (sub_ORD _ _ _ _ _ _ E)|]. split; [|split; [exact (se_owns_old _ _ _ _ _ _ E)|]].
+    - intros t pos ser label act Hs. destruct (se_new _ _ _ _ _ _ E _ _ _ _ Hs) as [Ho|(_ & _ & _ & Ex)]; [exact Ho|discriminate Ex].
+    - intros q v t Pv Pt. assert (Ho : owns w q KAbout t) by (exists v; auto). destruct (se_owns_old _ _ _ _ _ _ E _ _ _ Ho) as (v1 & P1 & T1).
+      exists v1. split; [exact P1|split; [exact T1|exact (se_upd _ _ _ _ _ _ E q v v1 Pv P1)]].
   Qed.
   Lemma GR_log_fns l w : GR w (log_fns l w).
   Proof.
     pose proof (FR_log_fns l w) as F. pose proof F as (F1' & F2' & F3' & _).
-    split; [intros q; apply imm_of_log_fns|]. split; [exact F1'|]. split; [intros q; unfold values; rewrite PropProofs.log_fns_props; reflexivity|]. split; [|split].
+    split; [intros q; apply imm_of_log_fns|]. split; [exact F1'|]. split; [intros q; unfold values; rewrite PropProofs.log_fns_props; reflexivity|]. split; [|split; [|split]].
     - intros p0 x Hi. rewrite (FR_ORD _ _ p0 F). exact Hi.
     - intros t pos ser label act Hs. unfold slot_at in *. rewrite F2' in Hs. exact Hs.
     - intros q k t (v & Pv & Sv). exists v. rewrite F3'. auto.
+    - intros q v t Pv Pt. exists v. rewrite F3'. auto.
   Qed.
 
   Lemma build_grow s0 bnew : forall e w next acc w1 nd n1,
@@ -303,7 +309,7 @@ Section Grow.
         symmetry. apply nth_error_None. rewrite app_length, B1. cbn. unfold b0 in *. lia.
       - intros p0 [q l] Hi. apply in_ORD in Hi. destruct Hi as (t & pos & ser & b' & Ho & Hs & Hi). apply in_ORD. exists t, pos, ser, b'. split; [exact Ho|]. split; [exact Hs|].
         unfold imm in *. destruct (get_bind w1' b') as [x'|] eqn:Eg; [|discriminate Hi]. rewrite Gold by congruence. rewrite Eg. exact Hi.
-      - auto. }
+      - split; [auto|split; [auto|intros q v t Hv Ht; exists v; auto]]. }
     split; [eapply GR_trans; eauto|]. split; [reflexivity|]. exists nb. split; [exact Gn|]. split; [destruct m; [inversion Hep; subst ep; reflexivity|exact Hep]|]. split; [reflexivity|].
     intros env q Henv. destruct (T env q Henv) as (T0 & E0 & C0 & N0 & V0). exists T0. repeat split; auto.
   Qed.
@@ -329,13 +335,13 @@ Section Grow.
 
   Lemma GR_SC w w1 : GR w w1 -> pinv w1 -> SC w -> SC w1.
   Proof.
-    intros (G1 & G2 & G3 & G4 & G5 & G6) Hinv1 (Hinv & Hna & Hsi). split; [exact Hinv1|]. split.
+    intros (G1 & G2 & G3 & G4 & G5 & G6 & G7) Hinv1 (Hinv & Hna & Hsi). split; [exact Hinv1|]. split.
     - intros t pos ser label act Hs. eapply Hna. eapply G5. exact Hs.
     - intros q x Hx. rewrite G1 in Hx. eauto.
   Qed.
   Lemma GR_COH w w1 : GR w w1 -> COH w -> COH w1.
   Proof.
-    intros (G1 & G2 & G3 & G4 & G5 & G6) (s & (R1 & R2 & R3) & HInv). exists s. split.
+    intros (G1 & G2 & G3 & G4 & G5 & G6 & G7) (s & (R1 & R2 & R3) & HInv). exists s. split.
     - split; [|split; [intros q; rewrite G1; apply R2|exact R3]]. intros p0 pr1 Hp1.
       assert (Hv : values w1 p0 = Some (pr_value pr1)) by (apply values_lookup; eauto). rewrite G3 in Hv. apply values_lookup in Hv.
       destruct Hv as (pr0 & Hp0 & Ev). rewrite (R1 _ _ Hp0). exact Ev.
